@@ -315,6 +315,11 @@ func (fm *FieldMask) PathInMask(desc *thrift_reflection.TypeDescriptor, path str
 
 // getPathAncestor tells if a given path is in current fieldmask, and return the nearest settled ancestor (include itself)
 func (cur *FieldMask) GetPath(desc *thrift_reflection.TypeDescriptor, path string) (*FieldMask, bool) {
+	// typedefs are followed at every step, as addPath does when it builds the mask
+	desc = unwrapDesc(desc)
+	if desc == nil {
+		return nil, false
+	}
 	it := newPathIter(path)
 	// println("[PathInMask]")
 	last := cur
@@ -396,7 +401,7 @@ func (cur *FieldMask) GetPath(desc *thrift_reflection.TypeDescriptor, path strin
 			}
 
 			// deep to next desc
-			desc = f.GetType()
+			desc = unwrapDesc(f.GetType())
 			if desc == nil {
 				return nil, false
 			}
@@ -409,7 +414,7 @@ func (cur *FieldMask) GetPath(desc *thrift_reflection.TypeDescriptor, path strin
 			if !desc.IsList() {
 				return nil, false
 			}
-			et := desc.GetValueType()
+			et := unwrapDesc(desc.GetValueType())
 			if et == nil {
 				return nil, false
 			}
@@ -460,7 +465,7 @@ func (cur *FieldMask) GetPath(desc *thrift_reflection.TypeDescriptor, path strin
 			if !desc.IsMap() {
 				return nil, false
 			}
-			et := desc.GetValueType()
+			et := unwrapDesc(desc.GetValueType())
 			if et == nil {
 				return nil, false
 			}
